@@ -238,6 +238,12 @@ func checkC08(tier string) int {
 			jobs = append(jobs, Job{Kind: "c08", Histories: c, NRules: nr, Bound: bound})
 		}
 	}
+	// single-op histories with deviation bound 3 (reaches e.g. 9 x EINTR, event, 1 x EINTR)
+	for _, nr := range []int{0, 2} {
+		for _, c := range chunk(allHistories([]int{0, 1, 2, 3, 4, 5}, 1), 6) {
+			jobs = append(jobs, Job{Kind: "c08", Histories: c, NRules: nr, Bound: 3})
+		}
+	}
 	if tier == "thorough" {
 		// (a) all 12 methods, histories <= 3, deviation bound 2; (b) histories <= 2, bound 3
 		jobs = nil
